@@ -191,12 +191,24 @@ class Ctx:
         self.violations.append((clause, sig, detail))
         return "new"
 
+    def undecided(self, msg):
+        """The trace specification could not decide a case (machinery).  Deferred: the run ends as a
+        machinery failure only if no decidable case of the same run violates the oracle."""
+        if not hasattr(self, "_undecided"):
+            self._undecided = []
+        self._undecided.append(str(msg)[:2000])
+
     def note_drift(self, clause, detail):
         if len(self.drift) < 50:
             self.drift.append({"clause": clause, "detail": detail})
 
     # -- finish -----------------------------------------------------------
     def finish(self):
+        und = getattr(self, "_undecided", [])
+        if und and not self.violations:
+            raise tlc.MachineryError("%d case(s) could not be judged; first: %s" % (len(und), und[0]))
+        if und:
+            self.notes["undecidable_cases"] = len(und)
         self.cleanup()
         shutil.rmtree(self._tmproot, ignore_errors=True)
         wall = time.time() - self.t0
